@@ -568,6 +568,11 @@ def post_batch(tier, seed):
         if v is not None:
             return {"violation": {"arm": "real multiprocessing.Pool (schedule not controlled; replay = re-run, best effort)",
                                   **v}}
+    from . import startmethod
+    sm = startmethod.run(tier, seed, "batch")
+    if "violation" in sm:
+        return sm
     return {"evidence": {"real_pool_arm": {"batches": done, "failing_batches_large_results": fb, "wall_s": round(time.time() - t0, 2),
                                            "note": "real multiprocessing.Pool, fork workers, micro-sleeps; schedule not "
-                                                   "controlled; record oracles only (no ledger across processes)"}}}
+                                                   "controlled; record oracles only (no ledger across processes)"},
+                         **sm["evidence"]}}
